@@ -469,6 +469,14 @@ class Gen:
             self.do({'op': 'pad_huge', 'r': r, 'm': meth, 'width': self.rng.choice([1000, 4096, 65536, 100001]),
                      'fill': self.rng.choice([' ', '*', '0']), 'extend': self.rng.random() < 0.6})
 
+    def g_pad_overflow(self):
+        """A width that does not fit a machine index (str raises OverflowError) or that fits but cannot be built (MemoryError): the library
+        must raise the same error and leave the receiver as it was."""
+        r = self.pick('S')
+        if r:
+            self.do({'op': 'pad', 'r': r, 'm': self.rng.choice(['rjust', 'ljust', 'center', 'zfill']), 'width': self.rng.choice([2 ** 63, 2 ** 62]) + self.rng.randint(1, 9),
+                     'fill': self.rng.choice(['*', ' ']), 'extend': self.rng.random() < 0.5, 'inplace': self.rng.random() < 0.7})
+
     def g_fmt_huge(self):
         r = self.pick()
         if r:
@@ -1428,7 +1436,7 @@ def weights(**over):
 
 
 PROFILES = {
-    'C01': weights(render=0, render8=1.5, apply=4, remove=2, slice=1.5, add=1.5, iadd=1.5, copy=0.3, many_end=0.8, clear_over=0.8, astr_of_source=1.0),
+    'C01': weights(render=0, render8=1.5, apply=4, remove=2, slice=1.5, add=1.5, iadd=1.5, copy=0.3, many_end=0.8, clear_over=0.8, astr_of_source=1.0, same_form_nested=1.0, crossed_stops=0.8),
     'C15': weights(render=0, render8=3, iadd=3.5, add=1, apply=3, remove=1.5, new=2, slice=1, clip=0.7, replace=0.7, pad=0.5,
                    simplify=0.4, copy=0.3, many_end=0.6, clear_over=0.6),
     'C03': weights(render=0, reparse=1.2, simplify=1.2, apply=4, remove=2, parse_twice=0.8, many_end=1.0, clear_over=0.8, esc_in_base=0.8),
@@ -1447,7 +1455,7 @@ PROFILES = {
     'C07': weights(remove=4, remove_edge=2.5, apply=5, clear=0.3, remove_prefixlike=1.2, remove_disjoint=1.2),
     'C08': weights(empty_accumulator=0.8, parse_twice=1.5, copy=3, eq=0.8, add=2.5, iadd=2.5, join=1.5, slice=3, new_from=2, replace=2, pad=0.7, strip=0.5, split=0.5, fmt=0.7,
                    matching=0.5, case=0.3),
-    'C09': weights(iter_join=1.0, iadd=2.5, replace=1.0, pad=2.0, pad_nested=1.0, pad_huge=0.15, fmt_huge=0.1, remove_edge=0.7, restart_leftover=0.5, shared_objects=0.8, split=0.7, partition=0.5, strip=0.5, rmfix=0.5, case=0.3,
+    'C09': weights(iter_join=1.0, iadd=2.5, replace=1.0, pad=2.0, pad_nested=1.0, pad_huge=0.15, fmt_huge=0.1, pad_overflow=0.25, remove_edge=0.7, restart_leftover=0.5, shared_objects=0.8, split=0.7, partition=0.5, strip=0.5, rmfix=0.5, case=0.3,
                    assign_str=0.5, query=0.5, matching=0.5, simplify=0.3, expandtabs=0.3, splitlines=0.3),
 }
 
